@@ -254,7 +254,11 @@ def compare_ts(mres, load_line, dump_line):
     if o.meta["format"].lower() != want_fmt.lower():
         return ("diff", "format", "C format %s, model %s" % (o.meta["format"], want_fmt))
     for i, (a, b) in enumerate(zip(o.freqs, m["freqs"])):
-        if not close(a, xfloat(b), TOL_EXACT_ARITH):
+        fb = xfloat(b)
+        if not close(a, fb, TOL_EXACT_ARITH):
+            if fb == fb and (0 < abs(fb) < 1e-290 or 1e290 < abs(fb) < float("inf")):
+                # multiplier x a subnormal (or nearly overflowing) number: the operand is already rounded coarsely
+                return ("skip", "frequency outside the range in which exact and binary64 arithmetic agree")
             return ("diff", "frequency", "frequency %d: C %r, model %s" % (i, a, b))
     if o.fz0 is not None:
         return ("diff", "z0", "per-frequency z0 after a Touchstone load")
